@@ -138,15 +138,60 @@ Proof.
   rewrite Hf, Z.eqb_refl in H. exact H.
 Qed.
 
+(* a go statement happens before every event of the goroutine it starts; so does everything
+   the parent did before the go statement *)
+Lemma hb_go_child tr p g i ep eg ei t0 t1 :
+  (p <= g)%nat -> (g < i)%nat ->
+  nth_error tr p = Some ep -> nth_error tr g = Some eg -> nth_error tr i = Some ei ->
+  thread_of ep = t0 -> eg = Go t0 t1 -> thread_of ei = t1 -> hb tr p i.
+Proof.
+  intros Hpg Hgi Hp Hg Hi Htp -> Hti.
+  assert (Hgo : hb tr g i) by (eapply hb_sync; [exact Hgi|exact Hg|exact Hi|exact Hti]).
+  destruct (Nat.eq_dec p g) as [->|Hne]; [exact Hgo|].
+  apply hb_trans with g; [|exact Hgo].
+  eapply hb_po; [|exact Hp|exact Hg|exact Htp]. lia.
+Qed.
+
+(* the same through a channel: what the sender did before the send happens before
+   everything the receiver does after the matching receive *)
+Lemma hb_send_recv tr p s r i ep er ei t0 t1 c k :
+  (p <= s)%nat -> (s < r)%nat -> (r <= i)%nat ->
+  nth_error tr p = Some ep -> nth_error tr s = Some (Send t0 c k) -> nth_error tr r = Some er ->
+  nth_error tr i = Some ei ->
+  thread_of ep = t0 -> er = Recv t1 c k -> thread_of ei = t1 -> hb tr p i.
+Proof.
+  intros Hps Hsr Hri Hp Hs Hr Hi Htp -> Hti.
+  assert (Hsr' : hb tr s r) by (eapply hb_sync; [exact Hsr|exact Hs|exact Hr|cbn; auto]).
+  assert (Hsi : hb tr s i).
+  { destruct (Nat.eq_dec r i) as [<-|Hne]; [exact Hsr'|].
+    apply hb_trans with r; [exact Hsr'|]. eapply hb_po; [|exact Hr|exact Hi|cbn; auto]. lia. }
+  destruct (Nat.eq_dec p s) as [->|Hne]; [exact Hsi|].
+  apply hb_trans with s; [|exact Hsi].
+  eapply hb_po; [|exact Hp|exact Hs|exact Htp]. lia.
+Qed.
+
+Lemma same_pub_tag r1 r2 : same_pub r1 r2 = true -> exists x, r_class r1 = JPub x /\ r_class r2 = JPub x.
+Proof.
+  unfold same_pub. destruct (r_class r1) as [| | |?|x|?]; try discriminate.
+  destruct (r_class r2) as [| | |?|y|?]; try discriminate.
+  intro E. apply Z.eqb_eq in E. subst y. eauto.
+Qed.
+Lemma pub_after_tag r1 r2 : pub_after r1 r2 = true -> exists x, r_class r1 = JPub x /\ r_class r2 = JAfter x.
+Proof.
+  unfold pub_after. destruct (r_class r1) as [| | |?|x|?]; try discriminate.
+  destruct (r_class r2) as [| | |?|?|y]; try discriminate.
+  intro E. apply Z.eqb_eq in E. subst y. eauto.
+Qed.
+
 Theorem lockset_sound tbl tr I :
   wf_trace tr -> conforms tbl tr I -> race_free_table tbl = true -> race_free tr.
 Proof.
   intros Hwf [Hrows Hconf] Htbl i j (Hij & t & t' & [o f] & w & w' & a & a' & Hi & Hj & Hne & Hw & Ha).
-  destruct (Hrows _ _ _ _ _ _ Hi) as (r & Hr & Hf & Hrw & Hat & Hlk & Hin & Hnin).
-  destruct (Hrows _ _ _ _ _ _ Hj) as (r' & Hr' & Hf' & Hrw' & Hat' & Hlk' & Hin' & Hnin').
+  destruct (Hrows _ _ _ _ _ _ Hi) as (r & Hr & Hf & Hrw & Hat & Hlk & Hin & Hnin & Hpub & Haft).
+  destruct (Hrows _ _ _ _ _ _ Hj) as (r' & Hr' & Hf' & Hrw' & Hat' & Hlk' & Hin' & Hnin' & Hpub' & Haft').
   pose proof (race_free_table_pair tbl r r' Htbl (nth_error_In _ _ Hr) (nth_error_In _ _ Hr') (eq_trans Hf (eq_sym Hf'))) as Hs.
   unfold pair_safe in Hs. rewrite !orb_true_iff in Hs.
-  destruct Hs as [[[[[Hs|Hs]|Hs]|Hs]|Hs]|Hs].
+  destruct Hs as [[[[[[[[Hs|Hs]|Hs]|Hs]|Hs]|Hs]|Hs]|Hs]|Hs].
   - (* two reads *) rewrite Hrw, Hrw' in Hs. destruct w, w'; discriminate.
   - (* both atomic *) rewrite Hat, Hat' in Hs. rewrite Hs in Ha. discriminate.
   - (* the earlier access is an initialisation *)
@@ -162,6 +207,19 @@ Proof.
     + destruct (Hin eq_refl) as (Ht & _). congruence.
     + destruct (Hnin eq_refl) as [Ht|Hhb]; [congruence|]. apply hb_lt in Hhb. lia.
   - (* confined to one goroutine *) exfalso. apply Hne. eapply Hconf; eassumption.
+  - (* two sites of the publishing goroutine *)
+    apply same_pub_tag in Hs as (x & Hc & Hc').
+    destruct (Hpub _ Hc) as (Ht & _). destruct (Hpub' _ Hc') as (Ht' & _). congruence.
+  - (* the earlier access is the publishing write, the later one a site listed after it *)
+    apply pub_after_tag in Hs as (x & Hc & Hc').
+    destruct (Hpub _ Hc) as (Ht & Hip & e & Hp & Hte & _).
+    destruct (Haft' _ Hc') as [Ht'|Hhb]; [congruence|].
+    apply hb_trans with (pubat I o x); [|exact Hhb].
+    eapply hb_po; [exact Hip|exact Hi|exact Hp|]. cbn. congruence.
+  - (* the later access is the publishing write: a listed site of another thread cannot precede it *)
+    apply pub_after_tag in Hs as (x & Hc' & Hc).
+    destruct (Hpub' _ Hc') as (Ht' & Hjp & _).
+    destruct (Haft _ Hc) as [Ht|Hhb]; [congruence|]. apply hb_lt in Hhb. lia.
   - (* a common mutex *)
     apply share_lock_common in Hs as (m & Hm & Hm').
     eapply (mutex_hb tr (o, m) i j); try eassumption; try reflexivity; auto. intros; discriminate.
@@ -184,6 +242,27 @@ Lemma unguarded_write_rejected tbl r1 r2 :
   race_free_table tbl = false.
 Proof.
   intros H1 H2 Hf Hw Hc1 Hc2 Hs. destruct (race_free_table tbl) eqn:E; [|reflexivity].
-  pose proof (race_free_table_pair tbl r1 r2 E H1 H2 Hf) as Hp. unfold pair_safe, is_init, is_atomic, same_owner in Hp.
+  pose proof (race_free_table_pair tbl r1 r2 E H1 H2 Hf) as Hp.
+  unfold pair_safe, is_init, is_atomic, same_owner, same_pub, pub_after in Hp.
   rewrite Hw, Hc1, Hc2, Hs in Hp. discriminate.
+Qed.
+
+(* field-level publication covers only the listed sites: a publishing write and any
+   site of the field that is neither an object-level initialisation, nor a site of
+   the publisher, nor listed as after THIS publication, and shares no mutex with
+   it (in particular: a plain, unlisted access) => the table is rejected *)
+Lemma pub_unlisted_rejected tbl r1 r2 tag :
+  In r1 tbl -> In r2 tbl -> r_field r1 = r_field r2 ->
+  r_write r1 = true -> r_class r1 = JPub tag ->
+  r_class r2 <> JInit -> r_class r2 <> JPub tag -> r_class r2 <> JAfter tag ->
+  share_lock r1 r2 = false ->
+  race_free_table tbl = false.
+Proof.
+  intros H1 H2 Hf Hw Hc1 Hn1 Hn2 Hn3 Hs. destruct (race_free_table tbl) eqn:E; [|reflexivity].
+  pose proof (race_free_table_pair tbl r1 r2 E H1 H2 Hf) as Hp.
+  unfold pair_safe, is_init, is_atomic, same_owner, same_pub, pub_after in Hp.
+  rewrite Hw, Hc1, Hs in Hp. cbn in Hp.
+  destruct (r_class r2) as [| | |y|y|y]; cbn in Hp; try discriminate; try congruence.
+  - rewrite !orb_false_r in Hp. apply Z.eqb_eq in Hp. congruence.
+  - rewrite !orb_false_r in Hp. apply Z.eqb_eq in Hp. congruence.
 Qed.
